@@ -214,9 +214,9 @@ fn all_kinds<'s>(acc: &mut Acc, sp: &Spec, g: &G, buf: &'s Buf, value: bool, lev
 // -----------------------------------------------------------------------------------------------
 // u8 family: hand-listed statically typed grammars, generic over the input
 
-type EU<'s> = extra::Err<Rich<'s, u8>>;
+pub type EU<'s> = extra::Err<Rich<'s, u8>>;
 
-fn u8_grammars<'s, I: ValueInput<'s, Token = u8, Span = SimpleSpan>>() -> Vec<(&'static str, Boxed<'s, 's, I, String, EU<'s>>)> {
+pub fn u8_grammars<'s, I: ValueInput<'s, Token = u8, Span = SimpleSpan>>() -> Vec<(&'static str, Boxed<'s, 's, I, String, EU<'s>>)> {
     let digit = || any::<I, EU<'s>>().filter(|b: &u8| b.is_ascii_digit());
     let letter = || any::<I, EU<'s>>().filter(|b: &u8| b.is_ascii_alphabetic());
     let show = |v: Vec<u8>| String::from_utf8_lossy(&v).to_string();
@@ -271,6 +271,11 @@ fn u8_grammars<'s, I: ValueInput<'s, Token = u8, Span = SimpleSpan>>() -> Vec<(&
             "skip_then_retry_until recovery",
             digit().repeated().at_least(1).collect::<Vec<u8>>().then_ignore(just(b',')).map(show).recover_with(skip_then_retry_until(any().ignored(), end())).repeated().collect::<Vec<String>>().map(|v| v.join(";")).boxed(),
         ),
+        // nothing behind them: whether the whole input was matched is decided by end() alone, after
+        // alternatives / items that ran into the end of the input were abandoned
+        ("longer keyword, shorter keyword, nothing after", choice((just(b'a').then(just(b'b')).then(just(b'a')).then(just(b'b')).to("abab".to_string()), just(b'a').then(just(b'b')).to("ab".to_string()), just(b'a').to("a".to_string()))).boxed()),
+        ("optional long suffix, nothing after", just(b'a').then(just(b'b').then(just(b'1')).then(just(b'(')).or_not()).map(|(_, o)| format!("a{}", o.is_some())).boxed()),
+        ("repeated pairs, nothing after", just(b'a').then(just(b'b')).repeated().count().map(|n| n.to_string()).boxed()),
         ("try_map user error", any().repeated().at_most(3).collect::<Vec<u8>>().try_map(move |v: Vec<u8>, span| if v.len() == 2 { Err(Rich::custom(span, "two")) } else { Ok(show(v)) }).boxed()),
     ]
 }
